@@ -635,8 +635,14 @@ func candReturnDeposit2(g *Gen, t *rapid.T, spent map[string]bool) *cand {
 	if take > total {
 		take = total
 	}
+	changeTo := g.owner(i).Deposit
+	if total > take && g.NProducers > 1 && rapid.IntRange(0, 3).Draw(t, "ret2foreign") == 0 {
+		// the "change" goes to ANOTHER producer's deposit address: coins that leave this deposit
+		changeTo = g.owner((i + 1 + rapid.IntRange(0, g.NProducers-2).Draw(t, "ret2to")) % g.NProducers).Deposit
+		mode += "/change-to-other-deposit"
+	}
 	tx := newTx(common2.TxVersion09, common2.ReturnDepositCoin, 0, &payload.ReturnDepositCoin{}, ins,
-		returnOutputs(g.owner(i).Standard, g.owner(i).Deposit, take, total), []*program.Program{prog(g.owner(i))})
+		returnOutputs(g.owner(i).Standard, changeTo, take, total), []*program.Program{prog(g.owner(i))})
 	return &cand{"returndeposit2", tx, fmt.Sprintf("p%d", i),
 		fmt.Sprintf("returndeposit2(p%d,%s,take=%s,in=%s,avail=%s,state=%s)", i, mode, take, total, p.AvailableAmount(), p.State())}
 }
@@ -680,8 +686,13 @@ func candReturnCRDeposit2(g *Gen, t *rapid.T, spent map[string]bool) *cand {
 	if take > total {
 		take = total
 	}
+	changeTo := key.Deposit
+	if total > take && g.nCR() > 1 && rapid.IntRange(0, 3).Draw(t, "retcr2foreign") == 0 {
+		changeTo = g.crKey((i + 1 + rapid.IntRange(0, g.nCR()-2).Draw(t, "retcr2to")) % g.nCR()).Deposit
+		mode += "/change-to-other-deposit"
+	}
 	tx := newTx(common2.TxVersion09, common2.ReturnCRDepositCoin, 0, &payload.ReturnDepositCoin{}, ins,
-		returnOutputs(key.Standard, key.Deposit, take, total), []*program.Program{prog(key)})
+		returnOutputs(key.Standard, changeTo, take, total), []*program.Program{prog(key)})
 	return &cand{"returncrdeposit2", tx, fmt.Sprintf("c%d", i),
 		fmt.Sprintf("returncrdeposit2(c%d,%s,take=%s,in=%s,avail=%s)", i, mode, take, total, avail)}
 }
